@@ -366,6 +366,14 @@ DROPS = {
 }
 
 
+TRUNCS = {
+    "propose": ["block.qc.sig", "agg.sig"],
+    "vote": ["sig"],
+    "timeout": ["viewsig", "msgsig", "qc.sig"],
+    "newview": ["qc.sig", "tc.sig", "agg.sig"],
+}
+
+
 def to_wire(lines, rng, p=0.6):
     """send a share of the deliveries through the real gorums handlers as (possibly mutilated) wire messages"""
     ids = {}
@@ -390,7 +398,11 @@ def to_wire(lines, rng, p=0.6):
             if kind == "timeout" and not any(x.startswith("from=") for x in rest):
                 rest.append("from=" + ids.get(t[2], "0"))
             r = rng.random()
-            if r < 0.5:
+            bls = any(x.startswith("cfg bls12") for x in lines[:3])
+            if bls and r < 0.12:
+                # a BLS signature whose bytes do not decode (cut short on the wire)
+                rest.append("trunc=" + ",".join(rng.sample(TRUNCS[kind], rng.choice([1, 1, 2]) if len(TRUNCS[kind]) > 1 else 1)))
+            elif r < 0.5:
                 k = rng.choice([1, 1, 2, 3])
                 rest.append("drop=" + ",".join(rng.sample(DROPS[kind], min(k, len(DROPS[kind])))))
             elif r < 0.6:
@@ -440,6 +452,9 @@ class ReplicaFam(Family):
         for l, o in zip(lines, impl_out):
             if l.startswith(("deliver", "wire", "local-timeout", "start")):
                 k = " ".join(l.split()[:2]) if l.startswith(("deliver", "wire")) else l.split()[0]
+                if "trunc=" in l:
+                    for d in l.split("trunc=")[1].split()[0].split(","):
+                        t["trunc:" + l.split()[1] + ":" + d] = t.get("trunc:" + l.split()[1] + ":" + d, 0) + 1
                 if "drop=" in l:
                     for d in l.split("drop=")[1].split()[0].split(","):
                         t["drop:" + l.split()[1] + ":" + d] = t.get("drop:" + l.split()[1] + ":" + d, 0) + 1
